@@ -174,6 +174,9 @@ def truth(interp, v):
         return True
     if isinstance(v, (eng.Closure, eng.FuncRef, eng.BoundModel)):
         return True
+    if isinstance(v, SOpaque) and getattr(v, "pytype", None) in (str, bytes):
+        # an opaque text is true iff it is not empty
+        return wrap((clen(v.e) if v.pytype is str else blen(v.e)) > 0)
     if isinstance(v, Sym):
         raise eng.Unsupported(f"truth of {type(v).__name__}")
     if isinstance(v, np.ndarray):
@@ -1714,6 +1717,11 @@ cur_interp = None
 
 def str_format(interp, fmt, args, kwargs):
     eng = _engine()
+    if not eng._has_sym(args) and not eng._has_sym(kwargs):
+        try:
+            return fmt.format(*args, **kwargs)
+        except Exception as ex:
+            raise eng.PyRaise(type(ex), ex.args)
     if kwargs or "{" not in fmt:
         raise eng.Unsupported("str.format with keywords")
     pieces = fmt.split("{}")
@@ -1725,7 +1733,13 @@ def str_format(interp, fmt, args, kwargs):
             parts.append(p)
         if i < len(args):
             parts.append(args[i] if is_sym(args[i]) else str(args[i]))
-    return SFmt(parts)
+    merged = []
+    for p in parts:       # adjacent literal pieces form one piece
+        if isinstance(p, str) and merged and isinstance(merged[-1], str):
+            merged[-1] += p
+        else:
+            merged.append(p)
+    return SFmt(merged)
 
 
 def numeric_name(key):
